@@ -48,11 +48,6 @@ Fixpoint find_loc (tbl : list (string * bool)) (k : nat) (w : word) : option (na
   | [] => None
   | (s, u) :: r => if prefixb (W s) w then Some (k, s, u) else find_loc r (S k) w
   end.
-Fixpoint span_digits (w : word) : word :=
-  match w with
-  | c :: r => match digit_of c with Some _ => c :: span_digits r | None => [] end
-  | [] => []
-  end.
 Definition atoi (w : word) : Z :=                                       (* optional sign, leading digits, else 0 *)
   let '(sgn, r) := match w with
                    | c :: r => if Ascii.eqb c "-" then (-1, r) else if Ascii.eqb c "+" then (1, r) else (1, w)
